@@ -455,6 +455,10 @@ func convertPattern(pat *parser.Pattern, node NodeMeta) Pattern {
 }
 
 func (protocol *ProtocolDefinition) UnmarshalYAML(value *yaml.Node) error {
+	if value.Kind != yaml.MappingNode && len(value.Content) > 0 {
+		return parseError(value, "a !protocol must be specified as a mapping with a `sequence`")
+	}
+
 	parsedSequence := false
 	for i := 0; i < len(value.Content); i += 2 {
 		k := value.Content[i]
